@@ -127,4 +127,75 @@ func init() {
 		"case LittleEndian:\n\t\tbo = binary.BigEndian", "case LittleEndian:\n\t\tbo = binary.LittleEndian", `UintAssertBytes|decode:`)
 	c("C15.crc.bzip2-bitflip", "C15.crc", "format/bzip2/bzip2.go",
 		`p[i] = bits.Reverse8(p[i])`, `p[i] = p[i]`, `bitFlipReader).Read`)
+	// ---- C15.find
+	c("C15.find.backward-bound", "C15.find", "pkg/decode/decode.go",
+		`count < -maxLen)`, `count <= -maxLen)`, `bound:backward`)
+	c("C15.find.forward-bound", "C15.find", "pkg/decode/decode.go",
+		`count >= maxLen)`, `count > maxLen)`, `bound:forward`)
+	c("C15.find.unbounded-guard", "C15.find", "pkg/decode/decode.go",
+		`(seekBits < 0 && maxLen > 0 && count < -maxLen)`, `(seekBits < 0 && count < -maxLen)`, `bound:backward`)
+	c("C15.find.backward-init", "C15.find", "pkg/decode/decode.go",
+		`count = int64(-nBits)`, `count = int64(-nBits) + seekBits`, `offset-init`)
+	c("C15.find.backward-preseek", "C15.find", "pkg/decode/decode.go",
+		"count = int64(-nBits)\n\t\tif _, err := d.bitBuf.SeekBits(start+count, io.SeekStart); err != nil {", "count = int64(-nBits)\n\t\tif _, err := d.bitBuf.SeekBits(start, io.SeekStart); err != nil {", `backward-start`)
+	c("C15.find.match-continues", "C15.find", "pkg/decode/decode.go",
+		"found = true\n\t\t\tbreak", "found = true", `match-exits`)
+	c("C15.find.none-result", "C15.find", "pkg/decode/decode.go",
+		"if !found {\n\t\treturn -1, 0, nil", "if !found {\n\t\treturn 0, 0, nil", `result:none`)
+	c("C15.find.not-restored", "C15.find", "pkg/decode/decode.go",
+		"if _, err := d.bitBuf.SeekBits(start, io.SeekStart); err != nil {\n\t\treturn -1, 0, err\n\t}\n\n\tif !found {", "if _, err := d.bitBuf.SeekBits(0, io.SeekCurrent); err != nil {\n\t\treturn -1, 0, err\n\t}\n\n\tif !found {", `restore:`)
+	c("C15.find.step-borrowed", "C15.find", "pkg/decode/decode.go",
+		"count += seekBits\n", "count += int64(nBits)\n", `TryPeekFind`)
+	// ---- C15.layout: error arms, merged locals, search predicates, inline formats, reported values, mapper closures
+	c("C15.layout.gzip-no-members-weakened", "C15.layout", "format/gzip/gzip.go",
+		`if len(brs) == 0 {`, `if len(brs) <= 1 {`, `Fatalf("no members found")`)
+	c("C15.layout.tar-no-files-weakened", "C15.layout", "format/tar/tar.go",
+		`if filesCount == 0 {`, `if filesCount <= 1 {`, `Errorf("no files found")`)
+	c("C15.layout.wav-type-check-negated", "C15.layout", "format/riff/wav.go",
+		`if riffType != wavRiffType {`, `if riffType == wavRiffType {`, `Errorf("wrong or no WAV riff type found`)
+	c("C15.layout.gif-trailer-const", "C15.layout", "format/gif/gif.go",
+		`case ';':`, `case ':':`, `Fatalf("unknown block")`)
+	c("C15.layout.gzip-unknown-method-accepted", "C15.layout", "format/gzip/gzip.go",
+		"\t} else {\n\t\td.Fatalf(\"unknown compression method %d\", compressionMethod)\n\t}", "\t}", `Fatalf("unknown compression method`)
+	c("C15.layout.zip-limit-cond-negated", "C15.layout", "format/zip/zip.go",
+		`if compressedLimit == 0 {`, `if compressedLimit != 0 {`, `merge(BitsLeft`)
+	c("C15.inflate.zip-streamed-size-cond", "C15.inflate", "format/zip/zip.go",
+		"if compressedSize == 0 {\n\t\t\t\t\t\t\tcompressedSize = readCompressedSize", "if compressedSize < 0 {\n\t\t\t\t\t\t\tcompressedSize = readCompressedSize", `merge(TryFieldReaderRangeFormat`)
+	c("C15.layout.bzip2-tree-delta-swapped", "C15.layout", "format/bzip2/bzip2.go",
+		"if d.Bool() {\n\t\t\t\t\tl--\n\t\t\t\t} else {\n\t\t\t\t\tl++", "if d.Bool() {\n\t\t\t\t\tl++\n\t\t\t\t} else {\n\t\t\t\t\tl--", `merge(`)
+	c("C15.layout.zip-eocd-search-signature", "C15.layout", "format/zip/zip.go",
+		`int(searchBytes)), endOfCentralDirectoryRecordSignature)`, `int(searchBytes)), endOfCentralDirectoryLocatorSignature)`, `endOfCentralDirectoryRecordSignature`)
+	c("C15.layout.zip-locator-search-signature", "C15.layout", "format/zip/zip.go",
+		`return v == uint64(endOfCentralDirectoryLocatorSignatureN)`, `return v == uint64(endOfCentralDirectoryRecordSignatureN)`, `endOfCentralDirectoryLocatorSignatureN`)
+	c("C15.layout.png-ztxt-text-len", "C15.layout", "format/png/png.go",
+		`d.FieldUTF8("text", int(d.BitsLeft()/8))`, `d.FieldUTF8("text", int(d.BitsLeft()/8)-1)`, `/chunks/uncompressed`)
+	c("C15.layout.zip-unix-guess-seconds", "C15.layout", "format/zip/zip.go",
+		`hour, minute, second*2, 0, time.UTC)`, `hour, minute, second, 0, time.UTC)`, `unix_guess`)
+	c("C15.layout.zip-year-base", "C15.layout", "format/zip/zip.go",
+		`s.Sym = s.Actual + 1980`, `s.Sym = s.Actual + 1970`, `last_modification/year`)
+	c("C15.layout.tar-mtime-unit", "C15.layout", "format/tar/tar.go",
+		`time.Duration(v) * time.Second`, `time.Duration(v) * time.Millisecond`, `/files/file/mtime`)
+	// ---- C15.attach (borrowed C05.rootbase obligations)
+	c("C15.attach.rootbitbuf-reader", "C15.attach", "pkg/decode/decode.go",
+		"v.RootReader = br\n\tv.IsRoot = true", "v.RootReader = d.bitBuf\n\tv.IsRoot = true", `FieldRootBitBuf`)
+	c("C15.attach.rootbitbuf-len", "C15.attach", "pkg/decode/decode.go",
+		`v.Range = ranges.Range{Start: d.Pos(), Len: brLen}`, `v.Range = ranges.Range{Start: d.Pos(), Len: brLen - d.Pos()}`, `FieldRootBitBuf`)
+	c("C15.attach.formatbitbuf-reader", "C15.attach", "pkg/decode/decode.go",
+		`decode(d.Ctx, br, group, Options{`, `decode(d.Ctx, d.bitBuf, group, Options{`, `TryFieldFormatBitBuf`)
+	c("C15.attach.formatbitbuf-len", "C15.attach", "pkg/decode/decode.go",
+		"\tdv.Range.Start = d.Pos()\n\n\td.AddChild(dv)\n\n\treturn dv, v, err\n}\n\nfunc (d *D) FieldFormatBitBuf", "\tdv.Range = ranges.Range{Start: d.Pos(), Len: d.BitsLeft()}\n\n\td.AddChild(dv)\n\n\treturn dv, v, err\n}\n\nfunc (d *D) FieldFormatBitBuf", `TryFieldFormatBitBuf`)
+	c("C15.layout.bzip2-footer-search-magic", "C15.layout", "format/bzip2/bzip2.go",
+		`if d.PeekUintBits(48) == footerMagic {`, `if d.PeekUintBits(48) == blockMagic {`, `break`)
+	c("C15.layout.tar-zero-scan-bound", "C15.layout", "format/tar/tar.go",
+		`for d.BitsLeft() >= blockBytes*8 && bytes.Equal(d.PeekBytes(blockBytes), zeroBlock[:]) {`, `for d.BitsLeft() > blockBytes*8 && bytes.Equal(d.PeekBytes(blockBytes), zeroBlock[:]) {`, `break`)
+	c("C15.find.zip-eocd-window-128", "C15.find", "format/zip/zip.go",
+		`searchBytes := min(d.Len()/8, 22+0xffff)`, `searchBytes := min(d.Len()/8, 128)`, `eocd-search|window`)
+	c("C15.find.zip-eocd-first-occurrence", "C15.find", "format/zip/zip.go",
+		`eocdIndex := bytes.LastIndex(`, `eocdIndex := bytes.Index(`, `eocd-search|last`)
+	c("C15.find.zip-eocd-none-not-fatal", "C15.find", "format/zip/zip.go",
+		"\tif eocdIndex == -1 {\n\t\td.Fatalf(\"can't find end of central directory\")\n\t}\n", "", `eocd-search|none-fatal`)
+	c("C15.find.zip-eocd-seek-units", "C15.find", "format/zip/zip.go",
+		`d.SeekAbs(searchStart + int64(eocdIndex)*8)`, `d.SeekAbs(searchStart + int64(eocdIndex))`, `eocd-search|seek`)
+	c("C15.find.zip-eocd-range-start", "C15.find", "format/zip/zip.go",
+		`searchStart := d.Len() - searchBytes*8`, `searchStart := d.Len() - searchBytes`, `eocd-search|window`)
 }
